@@ -3,4 +3,6 @@
    (flush at ChunkSize/2, hard limit ChunkSize); item sizes include the largest legal item
    (Max, alone in a chunk) and one that overflows a non-empty chunk. *)
 EXTENDS PersistCacheChunks
+(* simulation: export the walk once, when it is 30 operations long (run with -depth 31) *)
+ExportAt30 == Len(hist) # 30 \/ PrintT(<<"BEH", ToJson(hist)>>)
 ===============================================================================
